@@ -453,6 +453,8 @@ impl ParsedValue {
         foreign_key: &mut ForeignKey,
         values: &LocalesOrNamespaces,
         top_locale: &Key,
+        // the locale the target is taken from, differ from `top_locale` when the target is defaulted.
+        lookup_locale: &Key,
         default_locale: &Key,
         key_path: &KeyPath,
     ) -> Result<()> {
@@ -461,7 +463,7 @@ impl ParsedValue {
             return Ok(());
         };
 
-        let Some(value) = values.get_value_at(top_locale, foreign_key_path) else {
+        let Some(value) = values.get_value_at(lookup_locale, foreign_key_path) else {
             return Err(Error::MissingForeignKey {
                 foreign_key: foreign_key_path.to_owned(),
                 locale: top_locale.clone(),
@@ -475,12 +477,13 @@ impl ParsedValue {
             // but we still need to do it here to avoid infinite loop
             // this case happen if a foreign key point to an explicit default in the default locale
             // pretty niche, but would cause a rustc stack overflow if not done.
-            if top_locale == default_locale {
+            if lookup_locale == default_locale {
                 return Err(Error::ExplicitDefaultInDefault(key_path.to_owned()).into());
             } else {
                 return Self::resolve_foreign_key_inner(
                     foreign_key,
                     values,
+                    top_locale,
                     default_locale,
                     default_locale,
                     key_path,
@@ -488,8 +491,8 @@ impl ParsedValue {
             }
         }
 
-        // possibility that the foreign key must be resolved too
-        value.resolve_foreign_key(values, top_locale, default_locale, foreign_key_path)?;
+        // possibility that the foreign key must be resolved too, in the locale it comes from
+        value.resolve_foreign_key(values, lookup_locale, default_locale, foreign_key_path)?;
 
         // possibility that args must resolve too
         for arg in args.values() {
@@ -537,6 +540,7 @@ impl ParsedValue {
                 Self::resolve_foreign_key_inner(
                     &mut foreign_key,
                     values,
+                    top_locale,
                     top_locale,
                     default_locale,
                     path,
